@@ -176,6 +176,50 @@ structure SkipOut where
   skipped : List (Band × Int)       -- bands codedBands … end-1, lowest first, with bits[j]
   deriving Repr
 
+/-- Result of one iteration of the band-skipping loop for band `j = codedBands-1`. -/
+structure StepOut where
+  stop : Bool                       -- the loop breaks here (band `j` stays coded)
+  coder : Coder
+  psum : Int
+  irsv : Int
+  newBits : Int                     -- bits[j] of the skipped band
+  deriving Repr
+
+/-- `band_bits` (rate.c:331-337): the bits band `j` would get if the bits left over (including those stolen back from
+    higher, skipped bands) were spread now. -/
+def bandBitsOf (b : Band) (bits psum total : Int) : Int :=
+  let left0 := total - psum
+  let wAll : Int := ((b.lo + b.w : Nat) : Int)           -- eBands[codedBands]-eBands[start]
+  let percoeff := udiv left0 wAll
+  let left := left0 - wAll * percoeff
+  let rem := max (left - (b.lo : Int)) 0
+  bits + percoeff * b.w + rem
+
+/-- One iteration of the band-skipping loop below the `j<=skip_start` test (rate.c:330-391). -/
+def skipStep (p : Inp) (b : Band) (bits psum total irsv : Int) (coder : Coder) : StepOut :=
+  let floor := allocFloor p.C
+  let bandBits := bandBitsOf b bits psum total
+  -- the skip decision (coded only above the threshold)
+  let coded := decide (bandBits ≥ max b.thresh (floor + 2 ^ BITRES))
+  let dec : Bool × Coder :=
+    if coded then
+      if coder.encode then
+        let depth : Int := if b.j + 1 > 17 then (if (b.j : Int) < p.prev then 7 else 9) else 0
+        let stop := decide (b.j + 1 ≤ p.start + 2) ||
+          (decide (bandBits > depth * b.w * 2 ^ p.LM * 2 ^ BITRES / 16) && decide ((b.j : Int) ≤ p.signalBandwidth))
+        (stop, coder.encBit (if stop then 1 else 0))
+      else
+        let r := coder.decBit
+        (decide (r.1 ≠ 0), r.2)
+    else (false, coder)
+  let psum1 := if coded then psum + 2 ^ BITRES else psum
+  let bandBits := if coded then bandBits - 2 ^ BITRES else bandBits
+  let psum2 := psum1 - (bits + irsv)
+  let irsv' := if irsv > 0 then (log2FracTable.getD (b.j - p.start) 0 : Int) else irsv
+  let psum3 := psum2 + irsv'
+  { stop := dec.1, coder := dec.2, psum := if bandBits ≥ floor then psum3 + floor else psum3, irsv := irsv',
+    newBits := if bandBits ≥ floor then floor else 0 }
+
 /-- "Decide which bands to skip, working backwards from the end." (rate.c:310-392).  The list holds the bands
     `start … codedBands-1`, highest first.  `.abort`: the list ran out, i.e. `j <= skip_start` never became true
     (cannot happen for `start < end`; `celt_assert(codedBands > start)`). -/
@@ -183,42 +227,15 @@ def skipLoop (p : Inp) (skipStartJ : Nat) (skipRsv : Int) :
     List (Band × Int) → Int → Int → Int → Coder → List (Band × Int) → Res SkipOut
   | [], _, _, _, _, _ => .abort
   | (b, bits) :: rest, psum, total, irsv, coder, acc =>
-    let floor := allocFloor p.C
     if b.j ≤ skipStartJ then
       .ok { codedBands := b.j + 1, total := total + skipRsv, psum := psum, irsv := irsv, coder := coder,
             kept := (b, bits) :: rest, skipped := acc }
     else
-      let left0 := total - psum
-      let wAll : Int := ((b.lo + b.w : Nat) : Int)           -- eBands[codedBands]-eBands[start]
-      let percoeff := udiv left0 wAll
-      let left := left0 - wAll * percoeff
-      let rem := max (left - (b.lo : Int)) 0
-      let bandBits := bits + percoeff * b.w + rem
-      -- the skip decision (coded only above the threshold)
-      let coded := decide (bandBits ≥ max b.thresh (floor + 2 ^ BITRES))
-      let dec : Bool × Coder :=
-        if coded then
-          if coder.encode then
-            let depth : Int := if b.j + 1 > 17 then (if (b.j : Int) < p.prev then 7 else 9) else 0
-            let stop := decide (b.j + 1 ≤ p.start + 2) ||
-              (decide (bandBits > depth * b.w * 2 ^ p.LM * 2 ^ BITRES / 16) && decide ((b.j : Int) ≤ p.signalBandwidth))
-            (stop, coder.encBit (if stop then 1 else 0))
-          else
-            let r := coder.decBit
-            (decide (r.1 ≠ 0), r.2)
-        else (false, coder)
-      if dec.1 then
-        .ok { codedBands := b.j + 1, total := total, psum := psum, irsv := irsv, coder := dec.2,
+      let r := skipStep p b bits psum total irsv coder
+      if r.stop then
+        .ok { codedBands := b.j + 1, total := total, psum := psum, irsv := irsv, coder := r.coder,
               kept := (b, bits) :: rest, skipped := acc }
-      else
-        let psum := if coded then psum + 2 ^ BITRES else psum
-        let bandBits := if coded then bandBits - 2 ^ BITRES else bandBits
-        let psum := psum - (bits + irsv)
-        let irsv := if irsv > 0 then (log2FracTable.getD (b.j - p.start) 0 : Int) else irsv
-        let psum := psum + irsv
-        let nb : Int := if bandBits ≥ floor then floor else 0
-        let psum := if bandBits ≥ floor then psum + floor else psum
-        skipLoop p skipStartJ skipRsv rest psum total irsv dec.2 ((b, nb) :: acc)
+      else skipLoop p skipStartJ skipRsv rest r.psum total r.irsv r.coder ((b, r.newBits) :: acc)
 
 /-- Second pass of "Allocate the remaining bits" (rate.c:428-433): `tmp = IMIN(left, N); bits[j] += tmp; left -= tmp`. -/
 def spread : List (Band × Int) → Int → List (Band × Int)
@@ -234,43 +251,50 @@ structure BandOut where
   prio : Int
   deriving Repr, DecidableEq
 
+/-- The offset of the fine-bit count against the "fair share" (rate.c:460-474): `log2(N)/2 + FINE_OFFSET`, the
+    N=2 exception, and the shift for the second and third fine bit. -/
+def fineOffset (p : Inp) (b : Band) (den N bits : Int) : Int :=
+  let nclogn := den * (logN.getD b.j 0 + (p.LM : Int) * 2 ^ BITRES)
+  let offset := nclogn / 2 - den * FINE_OFFSET
+  let offset := if N = 2 then offset + den * 2 ^ BITRES / 4 else offset
+  if bits + offset < den * 2 * 2 ^ BITRES then offset + nclogn / 4
+  else if bits + offset < den * 3 * 2 ^ BITRES then offset + nclogn / 8 else offset
+
+/-- `ebits[j]` before re-balancing (rate.c:476-485): divide with rounding, do not bust, cap at MAX_FINE_BITS. -/
+def fineBits (p : Inp) (den offset bits : Int) : Int :=
+  let C : Int := p.C
+  let stereo : Nat := if p.C > 1 then 1 else 0
+  let e := udiv (max 0 (bits + offset + den * 2 ^ (BITRES - 1))) den / 2 ^ BITRES
+  let e := if C * e > bits / 2 ^ BITRES then bits / 2 ^ stereo / 2 ^ BITRES else e
+  min e MAX_FINE_BITS
+
+/-- "Fine energy can't take advantage of the re-balancing in quant_all_bands(). Instead, do the re-balancing here."
+    (rate.c:497-509): returns the band's outputs and the new `balance`. -/
+def rebal (p : Inp) (bits e prio excess balance : Int) : BandOut × Int :=
+  let C : Int := p.C
+  let stereo : Nat := if p.C > 1 then 1 else 0
+  if excess > 0 then
+    let extraFine := min (excess / 2 ^ (stereo + BITRES)) ((MAX_FINE_BITS : Int) - e)
+    let extraBits := extraFine * C * 2 ^ BITRES
+    (⟨bits, e + extraFine, if extraBits ≥ excess - balance then 1 else 0⟩, excess - extraBits)
+  else (⟨bits, e, prio⟩, excess)
+
 /-- One iteration of the fine/PVQ split loop (rate.c:437-509); returns the band's outputs and the new `balance`. -/
 def splitBand (p : Inp) (intensity dual : Int) (b : Band) (bits balance : Int) : BandOut × Int :=
   let C : Int := p.C
-  let stereo : Nat := if p.C > 1 then 1 else 0
   let N : Int := ((b.w * 2 ^ p.LM : Nat) : Int)
   let bit := bits + balance
   if N > 1 then
     let excess := max (bit - b.cap) 0
     let bits := bit - excess
     let den : Int := C * N + (if p.C = 2 ∧ N > 2 ∧ dual = 0 ∧ (b.j : Int) < intensity then 1 else 0)
-    let nclogn := den * (logN.getD b.j 0 + (p.LM : Int) * 2 ^ BITRES)
-    let offset := nclogn / 2 - den * FINE_OFFSET
-    let offset := if N = 2 then offset + den * 2 ^ BITRES / 4 else offset
-    let offset :=
-      if bits + offset < den * 2 * 2 ^ BITRES then offset + nclogn / 4
-      else if bits + offset < den * 3 * 2 ^ BITRES then offset + nclogn / 8 else offset
-    let e0 := max 0 (bits + offset + den * 2 ^ (BITRES - 1))
-    let e := udiv e0 den / 2 ^ BITRES
-    let e := if C * e > bits / 2 ^ BITRES then bits / 2 ^ stereo / 2 ^ BITRES else e
-    let e := min e MAX_FINE_BITS
+    let offset := fineOffset p b den N bits
+    let e := fineBits p den offset bits
     let prio : Int := if e * (den * 2 ^ BITRES) ≥ bits + offset then 1 else 0
-    let bits := bits - C * e * 2 ^ BITRES
-    if excess > 0 then
-      let extraFine := min (excess / 2 ^ (stereo + BITRES)) ((MAX_FINE_BITS : Int) - e)
-      let extraBits := extraFine * C * 2 ^ BITRES
-      let prio : Int := if extraBits ≥ excess - balance then 1 else 0
-      (⟨bits, e + extraFine, prio⟩, excess - extraBits)
-    else (⟨bits, e, prio⟩, excess)
+    rebal p (bits - C * e * 2 ^ BITRES) e prio excess balance
   else
     let excess := max 0 (bit - C * 2 ^ BITRES)
-    let bits := bit - excess
-    if excess > 0 then
-      let extraFine := min (excess / 2 ^ (stereo + BITRES)) (MAX_FINE_BITS : Int)
-      let extraBits := extraFine * C * 2 ^ BITRES
-      let prio : Int := if extraBits ≥ excess - balance then 1 else 0
-      (⟨bits, extraFine, prio⟩, excess - extraBits)
-    else (⟨bits, 0, 1⟩, excess)
+    rebal p (bit - excess) 0 1 excess balance
 
 /-- The loop over the coded bands, lowest first, carrying `balance`. -/
 def splitLoop (p : Inp) (intensity dual : Int) : List (Band × Int) → Int → List BandOut × Int
@@ -296,17 +320,11 @@ structure Out where
   ops : List Op                 -- range coder calls in call order
   deriving Repr
 
-/-- `interp_bits2pulses` after the bisection has produced `lo`. -/
-def finish (p : Inp) (bs : List Band) (b12 : List (Int × Int)) (skipStartJ : Nat) (total : Int)
-    (skipRsv irsv dsrsv : Int) (lo : Nat) (coder : Coder) : Res Out := do
-  let floor := allocFloor p.C
-  let ent := (bs.zip b12).reverse.map fun x => (interpAt lo x.2, x.1.thresh, x.1.cap)
-  let bits0 := initBits floor ent false                         -- highest band first
-  let psum := sumInt bits0
-  let s ← skipLoop p skipStartJ skipRsv (bs.reverse.zip bits0) psum total irsv coder []
+/-- "Code the intensity and dual stereo parameters." (rate.c:395-421): returns `(intensity, dual_stereo, total,
+    coder)` after the two parameters have been coded / decoded. -/
+def codeStereo (p : Inp) (s : SkipOut) (dsrsv : Int) : Int × Int × Int × Coder :=
   let cb := s.codedBands
-  -- "Code the intensity and dual stereo parameters." (rate.c:395-421)
-  let (intensity, coder) : Int × Coder :=
+  let ic : Int × Coder :=
     if s.irsv > 0 then
       if s.coder.encode then
         let i := min p.intensity cb
@@ -315,23 +333,41 @@ def finish (p : Inp) (bs : List Band) (b12 : List (Int × Int)) (skipStartJ : Na
         let r := s.coder.decUint (cb + 1 - p.start)
         ((p.start : Int) + r.1, r.2)
     else (0, s.coder)
-  let total := if intensity ≤ p.start then s.total + dsrsv else s.total
-  let dsrsv := if intensity ≤ p.start then 0 else dsrsv
-  let (dual, coder) : Int × Coder :=
+  let total := if ic.1 ≤ p.start then s.total + dsrsv else s.total
+  let dsrsv := if ic.1 ≤ p.start then 0 else dsrsv
+  let dc : Int × Coder :=
     if dsrsv > 0 then
-      if coder.encode then (p.dualStereo, coder.encBit (if p.dualStereo ≠ 0 then 1 else 0))
-      else let r := coder.decBit; ((r.1 : Int), r.2)
-    else (0, coder)
-  -- "Allocate the remaining bits" (rate.c:423-433)
+      if ic.2.encode then (p.dualStereo, ic.2.encBit (if p.dualStereo ≠ 0 then 1 else 0))
+      else let r := ic.2.decBit; ((r.1 : Int), r.2)
+    else (0, ic.2)
+  (ic.1, dc.1, total, dc.2)
+
+/-- "Allocate the remaining bits" (rate.c:423-433): the bands `start … codedBands-1`, lowest first, with their final
+    `bits[j]` before the fine/PVQ split. -/
+def distribute (p : Inp) (s : SkipOut) (total : Int) : List (Band × Int) :=
   let left0 := total - s.psum
-  let wAll : Int := ((eBands.getD cb 0 - eBands.getD p.start 0 : Nat) : Int)
+  let wAll : Int := ((eBands.getD s.codedBands 0 - eBands.getD p.start 0 : Nat) : Int)
   let percoeff := udiv left0 wAll
   let left := left0 - wAll * percoeff
-  let kept := s.kept.reverse.map fun x => (x.1, x.2 + percoeff * x.1.w)     -- lowest band first
-  let kept := spread kept left
-  let r := splitLoop p intensity dual kept 0
-  pure { codedBands := cb, balance := r.2, intensity := intensity, dualStereo := dual,
-         bands := r.1 ++ s.skipped.map (fun x => skippedOut p x.2), ops := coder.ops.reverse }
+  spread (s.kept.reverse.map fun x => (x.1, x.2 + percoeff * x.1.w)) left
+
+/-- Everything after the band-skipping loop (rate.c:394-523). -/
+def finishTail (p : Inp) (s : SkipOut) (dsrsv : Int) : Out :=
+  let st := codeStereo p s dsrsv
+  let kept := distribute p s st.2.2.1
+  let r := splitLoop p st.1 st.2.1 kept 0
+  { codedBands := s.codedBands, balance := r.2, intensity := st.1, dualStereo := st.2.1,
+    bands := r.1 ++ s.skipped.map (fun x => skippedOut p x.2), ops := st.2.2.2.ops.reverse }
+
+/-- `interp_bits2pulses` after the bisection has produced `lo`. -/
+def finish (p : Inp) (bs : List Band) (b12 : List (Int × Int)) (skipStartJ : Nat) (total : Int)
+    (skipRsv irsv dsrsv : Int) (lo : Nat) (coder : Coder) : Res Out := do
+  let floor := allocFloor p.C
+  let ent := (bs.zip b12).reverse.map fun x => (interpAt lo x.2, x.1.thresh, x.1.cap)
+  let bits0 := initBits floor ent false                         -- highest band first
+  let psum := sumInt bits0
+  let s ← skipLoop p skipStartJ skipRsv (bs.reverse.zip bits0) psum total irsv coder []
+  pure (finishTail p s dsrsv)
 
 /-- `clt_compute_allocation` (rate.c:548-645). -/
 def computeAllocation (p : Inp) (coder : Coder) : Res Out :=
